@@ -263,7 +263,7 @@ impl Interp {
                 let split = kv(t, "split").and_then(|x| x.parse::<usize>().ok());
                 let marker = kv(t, "marker").and_then(unhex).unwrap_or_default();
                 let _ = kind;
-                crate::hs::run(&self.rt, &segments, split, &marker)
+                crate::hs::run(&self.rt, &segments, split, &marker, kv(t, "fin") == Some("1"))
             }
             ["cfg.cipher", h] => {
                 let Some(name) = unhex(h).and_then(|b| String::from_utf8(b).ok()) else { return "err".into() };
